@@ -287,16 +287,16 @@ Qed.
 Lemma I_process_io : forall fuel cid ev w, Iv Top w -> Iv Top (snd (process_io fuel cid ev w)).
 Proof.
   intros fuel cid ev w H. unfold process_io. cbv zeta.
-  destruct (has ev (EV_ERR + EV_HUP + EV_RDHUP) && negb (has ev (EV_IN + EV_OUT))).
+  destruct (has ev (EV_ERR + EV_HUP + EV_RDHUP) && negb (has ev (EV_IN + EV_PRI + EV_OUT))).
   { apply I_el_close. apply I_wsetc; auto. }
   destruct (if has ev (EV_OUT + EV_ERR + EV_HUP) then el_write fuel cid 0 w else (RNil, w)) as [r1 w1] eqn:H1e.
   assert (H1 : Iv Top w1).
   { destruct (has ev (EV_OUT + EV_ERR + EV_HUP)); [|inversion H1e; subst; exact H].
     assert (Hx := I_el_write c0 fuel cid 0 w [] [] [] H). rewrite H1e in Hx. exact Hx. }
   destruct r1; try exact H1.
-  destruct (if has ev (EV_IN + EV_ERR + EV_HUP) then el_read fuel cid 0 w1 else (RNil, w1)) as [r2 w2] eqn:H2e.
+  destruct (if has ev (EV_IN + EV_PRI + EV_ERR + EV_HUP) then el_read fuel cid 0 w1 else (RNil, w1)) as [r2 w2] eqn:H2e.
   assert (H2 : Iv Top w2).
-  { destruct (has ev (EV_IN + EV_ERR + EV_HUP)); [|inversion H2e; subst; exact H1].
+  { destruct (has ev (EV_IN + EV_PRI + EV_ERR + EV_HUP)); [|inversion H2e; subst; exact H1].
     assert (Hx := I_el_read0 fuel cid w1 H1). rewrite H2e in Hx. exact Hx. }
   destruct r2; try exact H2.
   destruct (has ev EV_RDHUP && c_opened (wc w2 cid)); [|exact H2].
